@@ -351,4 +351,113 @@ theorem rewriteAll_inv (cfg : Cfg) : ∀ (ms ms' : List Msg) (acc acc' : List Im
             · have c3 : ¬ (acc.length ≤ k ∧ k < acc2.length) := by omega
               rw [if_neg c1, if_neg c2, if_neg c3]; omega
 
+/-- every message's NEW tags are exactly the indices of its own images: `b` is the number of
+    images returned before this message -/
+inductive Owned : Nat → List Msg → List Msg → Prop
+  | nil {b} : Owned b [] []
+  | cons {b m m' ms ms'} :
+      (∀ k, countTag k m'.content = countTag k m.content +
+        (if b ≤ k ∧ k < b + m.images.length then 1 else 0)) →
+      Owned (b + m.images.length) ms ms' → Owned b (m :: ms) (m' :: ms')
+
+theorem rewriteAll_owned (cfg : Cfg) : ∀ (ms ms' : List Msg) (acc acc' : List ImgOut),
+    rewriteAll cfg ms acc = .ok (ms', acc') → Owned acc.length ms ms' := by
+  intro ms
+  induction ms with
+  | nil =>
+    intro ms' acc acc' h
+    simp only [rewriteAll] at h
+    injection h with h
+    injection h with h1 h2
+    subst h1
+    exact Owned.nil
+  | cons m ms ih =>
+    intro ms' acc acc' h
+    simp only [rewriteAll] at h
+    split at h
+    · cases h
+    · rename_i m1 acc1 h1
+      split at h
+      · cases h
+      · rename_i ms1 acc2 h2
+        injection h with h
+        injection h with h3 h4
+        subst h3
+        obtain ⟨_, _, _, _, r5, _, r7⟩ := rewriteMsg_inv cfg m m1 acc acc1 h1
+        have := ih ms1 acc1 acc2 h2
+        rw [r5] at this
+        refine Owned.cons ?_ this
+        intro k
+        rw [r7 k, r5]
+
+
+/-! ### bytes ↔ pieces -/
+
+
+theorem renderPieces_flushLit (acc : Bytes) : renderPieces (flushLit acc) = acc.reverse := by
+  unfold flushLit
+  cases acc <;> simp [renderPieces, renderPiece]
+
+theorem splitGo_render : ∀ (bs : Bytes) (skip : Nat) (acc : Bytes),
+    renderPieces (splitGo bs skip acc) = acc.reverse ++ bs.drop skip := by
+  intro bs
+  induction bs with
+  | nil => intro skip acc; simp [splitGo, renderPieces_flushLit]
+  | cons b bs ih =>
+    intro skip acc
+    cases skip with
+    | succ k => simp [splitGo, ih]
+    | zero =>
+      simp only [splitGo]
+      split
+      · rename_i hp
+        obtain ⟨t, ht⟩ := List.isPrefixOf_iff_prefix.mp hp
+        have hb : b = 91 ∧ bs = [105, 109, 103, 93] ++ t := by
+          simp only [bImg, List.cons_append, List.nil_append] at ht
+          injection ht with h1 h2
+          exact ⟨h1.symm, by simpa using h2.symm⟩
+        have := ih 4 []
+        simp only [renderPieces, List.flatMap_append, List.flatMap_cons] at this ⊢
+        rw [this]
+        have h2 := renderPieces_flushLit acc
+        simp only [renderPieces] at h2
+        rw [h2, hb.1, hb.2]
+        simp [renderPiece, bImg]
+      · rw [ih 0 (b :: acc)]
+        simp
+
+/-- the piece representation loses nothing: rendering the parsed content gives the bytes back -/
+theorem splitImg_render (s : Bytes) : renderPieces (splitImg s) = s := by
+  simp [splitImg, splitGo_render]
+
+
+
+theorem countTag_flushLit (k : Nat) (acc : Bytes) : countTag k (flushLit acc) = 0 := by
+  unfold flushLit
+  cases acc <;> simp [countTag]
+
+theorem splitGo_noTag (k : Nat) : ∀ (bs : Bytes) (skip : Nat) (acc : Bytes),
+    countTag k (splitGo bs skip acc) = 0 := by
+  intro bs
+  induction bs with
+  | nil => intro skip acc; simp [splitGo, countTag_flushLit]
+  | cons b bs ih =>
+    intro skip acc
+    cases skip with
+    | succ j => simp [splitGo, ih]
+    | zero =>
+      simp only [splitGo]
+      split
+      · have := ih 4 []
+        simp only [countTag_append, countTag_flushLit, Nat.zero_add]
+        simp only [countTag, List.countP_cons] at this ⊢
+        simpa using this
+      · exact ih 0 (b :: acc)
+
+/-- parsed raw content never contains a tag piece: the hypothesis of `images_once_indexed` holds
+    for every conversation the oracle parses -/
+theorem splitImg_noTag (k : Nat) (s : Bytes) : countTag k (splitImg s) = 0 :=
+  splitGo_noTag k s 0 []
+
+
 end OllamaVerif.Prompt
